@@ -109,6 +109,7 @@ class Fn:
     effects: dict = field(default_factory=dict)   # "cell.connect" -> element type of the emitted list (a ("T", ..))
     keyed: tuple = ()              # dotted names of dicts whose values are named by their key: `self._cells[k]` → k
     state: dict = field(default_factory=dict)     # "self._cache" -> type: attributes the function mutates
+    effect_params: dict = field(default_factory=dict)   # "self.m" -> parameter names, so that an effect call may use keywords
     fuel: bool = False             # `while` loops allowed: the definition gets a `fuel : Nat` parameter
     order: str | None = None       # Lean name of the translated `__lt__` that heappush / heappop compare with
     props: dict = field(default_factory=dict)     # attribute that is a @property -> python name of its translated getter
@@ -667,8 +668,18 @@ class Translator:
             h = _dotted(c.args[0])
             return self.let(self.v(h), f"Mesa.Heap.heappush {self.fn.order} {self.v(h)} {self.expr(c.args[1], env)[0]}") + k(env)
         if f in self.fn.effects:
-            vals = [self.expr(a, env)[0] for a in c.args]
-            if c.keywords or len(vals) != len(self.fn.effects[f]) - 1:
+            args = list(c.args)
+            names = self.fn.effect_params.get(f)
+            if c.keywords and names and all(k.arg in names[len(args):] for k in c.keywords):
+                kw = {k.arg: k.value for k in c.keywords}
+                if len(kw) == len(c.keywords) and len(args) + len(kw) == len(names):
+                    args += [kw[n] for n in names[len(args):]]       # pure arguments: evaluation order does not matter
+                else:
+                    self.bad(c, f"effect call `{f}`: keywords do not complete the positional arguments")
+            elif c.keywords:
+                self.bad(c, f"effect call `{f}` with keyword arguments")
+            vals = [self.expr(a, env)[0] for a in args]
+            if len(vals) != len(self.fn.effects[f]) - 1:
                 self.bad(c, f"effect call `{f}` with an unexpected argument list")
             return self.let(OUT, f"{OUT} ++ [({', '.join(vals)})]") + k(env)
         if isinstance(c.func, ast.Attribute) and isinstance(c.func.value, ast.Name) and c.func.value.id in env:
